@@ -305,6 +305,20 @@ def exec_op(ctx, st, op, g, events=None):
             events.branches.append((g, a))
         return "branch"
     if t == "intrinsic":
+        if getattr(ctx, "intrinsic_havoc", False) and op[1].get("written") is not None:
+            # analysis-level meaning of a declared intrinsic: it writes unknown values to exactly the scalars it declares
+            for w_ in op[1]["written"]:
+                if w_[0] == "scalar":
+                    tag = getattr(ctx, "cur_tag", None)
+                    if tag is None:
+                        hv = ctx.fresh_bv("havoc_" + w_[1], w_[2])
+                    else:
+                        nm = f"havoc!{tag[0]}!{tag[1]}!{tag[2]}!{w_[1]}"
+                        hv = z3.BitVec(ctx.prefix + nm, w_[2])
+                        if not hasattr(ctx, "havocs"): ctx.havocs = {}
+                        ctx.havocs[nm] = hv
+                    st.sc[key_of(w_, ctx.ssa)] = hv
+            return "fall"
         if events is not None:
             events.intrinsics.append((g, op[1], st.copy()))
         return "intrinsic"
